@@ -1136,3 +1136,639 @@ Proof.
     + rewrite e8. auto.
     + intros _. apply plain_det, pc_after_plain.
 Qed.
+
+Lemma invb_uad s b : InvB s -> InvB (with_uad s b).
+Proof. intros [B1 B2 B3 B4 B5 B6 B7 B8 B9 B10 B11 B12 B13]. constructor; auto. Qed.
+
+Theorem invb_step s i : InvB s -> enabled s i = true -> InvB (step s i).
+Proof.
+  intros B EN. pose proof (invb_core s i B EN) as C.
+  destruct (step_core s i) as [-> | ->]; [exact C|apply invb_uad, C].
+Qed.
+
+Lemma init_shape ops : exists m cl n, 0 < m /\ 1 <= n /\ length cl = m /\ nclients (init ops) = m /\
+  thrs (init ops) = cl ++ repeat WIdle n /\ threads (init ops) = seq m n /\
+  queue (init ops) = [] /\ exit_ (init ops) = false /\ stopped (init ops) = false /\ destroyed (init ops) = false /\
+  tokens (init ops) = 0 /\ woken (init ops) = [] /\ clos (init ops) = [] /\ extw (init ops) = [] /\ uad (init ops) = false /\
+  (forall i p, nth_error cl i = Some p -> exists r, p = next_client i r).
+Proof.
+  unfold init. set (d := decode ops). set (m := Nat.min (S (dmax d)) 3).
+  exists m, (map (fun ip => next_client (fst ip) (snd ip)) (combine (seq 0 m) (firstn m [dp0 d; dp1 d; dp2 d]))), (Nat.max 1 (dn d)).
+  assert (M : 0 < m <= 3) by (unfold m; lia).
+  repeat split; try reflexivity; try lia.
+  - rewrite map_length, combine_length, seq_length, firstn_length. cbn [length]. lia.
+  - intros i p H. rewrite nth_error_map in H.
+    destruct (nth_error (combine (seq 0 m) (firstn m [dp0 d; dp1 d; dp2 d])) i) as [[j r]|] eqn:E; [|discriminate].
+    cbn [option_map fst snd] in H. inversion H; subst.
+    exists r. f_equal.
+    assert (X : nth_error (seq 0 m) i = Some j).
+    { revert E. generalize (firstn m [dp0 d; dp1 d; dp2 d]) as l2. generalize (seq 0 m) as l1. clear.
+      induction i as [|i IH]; intros [|a l1] [|b l2] E; cbn in E; try discriminate.
+      - inversion E; reflexivity.
+      - cbn. eapply IH, E. }
+    assert (L : i < length (seq 0 m)) by (apply nth_error_Some; congruence).
+    rewrite (nth_error_nth' (seq 0 m) 0 L) in X. rewrite seq_length in L. rewrite seq_nth in X by exact L.
+    inversion X. reflexivity.
+Qed.
+
+Lemma init_cls ops : forall i p, T (init ops) i = Some p ->
+  (i < nclients (init ops) /\ exists r, p = next_client i r) \/ (nclients (init ops) <= i /\ p = WIdle).
+Proof.
+  destruct (init_shape ops) as (m & cl & n & M & N & LC & NC & TH & _ & _ & _ & _ & _ & _ & _ & _ & _ & _ & SH).
+  intros i p H. unfold T in H. rewrite TH in H. rewrite NC. destruct (Nat.ltb_spec i m) as [L|L].
+  - left. split; [exact L|]. rewrite nth_error_app1 in H by lia. eapply SH, H.
+  - right. split; [exact L|]. rewrite nth_error_app2 in H by lia. apply nth_error_In, repeat_spec in H. exact H.
+Qed.
+
+Lemma invb_init ops : InvB (init ops).
+Proof.
+  destruct (init_shape ops) as (m & cl & n & M & N & LC & NC & TH & THR & Q & EX & ST & DE & TK & WK & CLO & XW & UA & SH).
+  pose proof (init_cls ops) as CLS.
+  assert (PLAIN : forall i p, T (init ops) i = Some p -> in_stop p = false /\ p <> WExit).
+  { intros i p H. destruct (CLS i p H) as [(L & r & ->)|(L & ->)]; [|split; [reflexivity|discriminate]].
+    destruct (next_client_plain i r) as (X1 & X2 & _). auto. }
+  constructor.
+  - rewrite EX. discriminate.
+  - rewrite DE. discriminate.
+  - rewrite ST. discriminate.
+  - rewrite NC, TH, app_length, LC. lia.
+  - intros i p H. destruct (CLS i p H) as [(L & r & ->)|(L & ->)].
+    + split; [lia|]. intros _. apply next_client_plain.
+    + split; [reflexivity|lia].
+  - intros H. destruct (CLS 0 _ H) as [(L & r & E)|(L & E)]; [|discriminate].
+    exfalso. destruct (next_client_plain 0 r) as (_ & _ & X). apply (X eq_refl). symmetry. exact E.
+  - intros c. unfold G. rewrite CLO. destruct c; cbn; lia.
+  - intros i p H I. destruct (PLAIN i p H) as [X _]. congruence.
+  - intros i l q f a H. destruct (PLAIN i _ H) as [X _]. discriminate.
+  - intros i l q a H. destruct (PLAIN i _ H) as [X _]. discriminate.
+  - intros w Hin. rewrite THR in Hin. apply in_seq in Hin. rewrite NC, TH, app_length, repeat_length. lia.
+  - intros i p H L C. destruct (CLS i p H) as [(_ & r & ->)|(L2 & _)]; [|lia]. rewrite next_client_client in C. discriminate.
+  - intros i p H L. apply plain_det. apply (PLAIN i p H).
+Qed.
+
+Theorem invb_reachable ops s : reachable ops s -> InvB s.
+Proof. induction 1; [apply invb_init|apply invb_step; assumption]. Qed.
+
+(* ---------- invariant U: who joins whom; nothing is left running when the destructor returns ---------- *)
+Definition stopper (p : pc) : bool := match p with Join _ _ _ _ | SFin _ => true | _ => false end.
+Definition after_of (p : pc) : option after := match p with Join _ _ _ a | SWait _ _ a | SFin a => Some a | _ => None end.
+Definition dtor_phase (p : pc) : bool :=
+  match p with CDtor => true | _ => match after_of p with Some ADtor => true | _ => false end end.
+Definition dtor_pc (p : pc) : bool := match p with CXWait => true | _ => dtor_phase p end.
+Definition poolw (s : st) (w : nat) : Prop := nclients s <= w < length (thrs s).
+Definition all_done (s : st) : Prop := forall i p, T s i = Some p -> p = CDone \/ p = WExit.
+
+Record InvU (s : st) : Prop := {
+  u_thrall : exit_ s = false -> forall w, poolw s w -> In w (threads s);
+  u_uniq : forall i j p p', T s i = Some p -> T s j = Some p' -> stopper p = true -> stopper p' = true -> i = j;
+  u_jall : forall t l q f a, T s t = Some (Join l q f a) ->
+             forall w, poolw s w -> w <> t -> T s w <> Some WExit -> In w l;
+  u_sfin : forall t a, T s t = Some (SFin a) -> forall w, poolw s w -> w <> t -> T s w = Some WExit;
+  u_det : forall t p, T s t = Some p -> nclients s <= t -> stopper p = true -> det_of p = true;
+  u_stopw : stopped s = true -> forall w, poolw s w -> T s w = Some WExit;
+  u_zero : forall i p, T s i = Some p -> dtor_pc p = true -> i = 0;
+  u_dtor : forall p, T s 0 = Some p -> dtor_phase p = true -> forall j, 0 < j < nclients s -> T s j = Some CDone;
+  u_dead : destroyed s = true -> all_done s;
+  u_uad : uad s = false
+}.
+
+Lemma invu_frame s s' i p old : InvU s -> T s i = Some old -> unfinished old = true ->
+  thrs s' = set_nth (thrs s) i p -> nclients s' = nclients s ->
+  (exit_ s' = false -> exit_ s = false /\ threads s' = threads s) ->
+  (stopper p = true -> stopper old = true \/ (forall j p', T s j = Some p' -> stopper p' = false)) ->
+  (forall l q f a, p = Join l q f a -> forall w, poolw s w -> w <> i -> T s w <> Some WExit -> In w l) ->
+  (forall a, p = SFin a -> forall w, poolw s w -> w <> i -> T s w = Some WExit) ->
+  (nclients s <= i -> stopper p = true -> det_of p = true) ->
+  (stopped s' = stopped s \/ (forall w, poolw s w -> T s' w = Some WExit)) ->
+  (dtor_pc p = true -> dtor_pc old = true \/ i = 0) ->
+  (i = 0 -> dtor_phase p = true -> dtor_phase old = true \/ (forall j, 0 < j < nclients s -> T s j = Some CDone)) ->
+  (destroyed s' = true -> destroyed s = true \/ all_done s') ->
+  uad s' = uad s ->
+  InvU s'.
+Proof.
+  intros [U1 U2 U3 U4 U5 U6 U7 U8 U9 U10] H UF Et En X1 X2 X3 X4 X5 X6 X7 X8 X9 X10.
+  pose proof (TT_set s s' i p old H Et) as TT.
+  assert (LEN : length (thrs s') = length (thrs s)) by (rewrite Et; apply set_nth_length).
+  assert (PW : forall w, poolw s' w <-> poolw s w) by (intros w; unfold poolw; rewrite En, LEN; tauto).
+  assert (NDEAD : destroyed s = true -> False).
+  { intros D. destruct (U9 D i old H) as [-> | ->]; discriminate. }
+  assert (NWX : old <> WExit) by (intros ->; discriminate).
+  constructor.
+  - intros X w Pw. destruct (X1 X) as [X0 Th]. rewrite Th. apply U1; [exact X0|apply PW, Pw].
+  - intros j k pj pk. rewrite !TT.
+    destruct (Nat.eqb_spec i j) as [E1|E1]; destruct (Nat.eqb_spec i k) as [E2|E2]; intros Q1 Q2 S1 S2.
+    + congruence.
+    + inversion Q1; subst pj. destruct (X2 S1) as [So|No]; [subst; eapply U2; eassumption|].
+      rewrite (No k pk Q2) in S2. discriminate.
+    + inversion Q2; subst pk. destruct (X2 S2) as [So|No]; [subst; eapply U2; eassumption|].
+      rewrite (No j pj Q1) in S1. discriminate.
+    + eapply U2; eassumption.
+  - intros t l q f a. rewrite TT. destruct (Nat.eqb_spec i t) as [E|E].
+    + intros Q. inversion Q as [Q']. subst t. intros w Pw Nw. rewrite TT.
+      apply Nat.eqb_neq in Nw. rewrite Nat.eqb_sym in Nw. rewrite Nw. apply (X3 _ _ _ _ Q'); [apply PW, Pw|].
+      apply Nat.eqb_neq. rewrite Nat.eqb_sym. exact Nw.
+    + intros Q w Pw Nw. rewrite TT. destruct (Nat.eqb_spec i w) as [E2|E2].
+      * intros _. subst w. apply (U3 t l q f a Q i); [apply PW, Pw|auto|]. rewrite H. congruence.
+      * apply (U3 t l q f a Q w); [apply PW, Pw|exact Nw].
+  - intros t a. rewrite TT. destruct (Nat.eqb_spec i t) as [E|E].
+    + intros Q. inversion Q as [Q']. subst t. intros w Pw Nw. rewrite TT.
+      assert (Nw' : Nat.eqb i w = false) by (apply Nat.eqb_neq; auto). rewrite Nw'.
+      apply (X4 _ Q'); [apply PW, Pw|exact Nw].
+    + intros Q w Pw Nw. rewrite TT. destruct (Nat.eqb_spec i w) as [E2|E2].
+      * exfalso. subst w. pose proof (U4 t a Q i (proj1 (PW i) Pw) E) as Y. rewrite H in Y. congruence.
+      * apply (U4 t a Q w); [apply PW, Pw|exact Nw].
+  - intros t pt. rewrite TT, En. destruct (Nat.eqb_spec i t) as [E|E].
+    + intros Q. inversion Q; subst. apply X5.
+    + apply U5.
+  - intros ST w Pw. destruct X6 as [Same|Own]; [|apply Own, PW, Pw].
+    rewrite Same in ST. rewrite TT. destruct (Nat.eqb_spec i w) as [E2|E2].
+    + exfalso. subst w. pose proof (U6 ST i (proj1 (PW i) Pw)) as Y. rewrite H in Y. congruence.
+    + apply (U6 ST), PW, Pw.
+  - intros j pj. rewrite TT. destruct (Nat.eqb_spec i j) as [E|E].
+    + intros Q D. inversion Q; subst. destruct (X7 D) as [Y|Y]; [eapply U7; eassumption|exact Y].
+    + apply U7.
+  - intros p0. rewrite TT, En. destruct (Nat.eqb_spec i 0) as [E|E].
+    + intros Q D j Lj. inversion Q; subst p0. rewrite TT. subst i.
+      assert (Nj : Nat.eqb 0 j = false) by (apply Nat.eqb_neq; lia). rewrite Nj.
+      destruct (X8 eq_refl D) as [Y|Y]; [eapply U8; eassumption|apply Y, Lj].
+    + intros Q D j Lj. rewrite TT. destruct (Nat.eqb_spec i j) as [E2|E2].
+      * exfalso. subst j. pose proof (U8 p0 Q D i Lj) as Y. rewrite H in Y. inversion Y. subst old. discriminate.
+      * eapply U8; eassumption.
+  - intros D. destruct (X9 D) as [Y|Y]; [exfalso; auto|exact Y].
+  - rewrite X10. exact U10.
+Qed.
+
+Lemma enabled_unfinished s i : enabled s i = true -> exists p, T s i = Some p /\ unfinished p = true.
+Proof.
+  unfold enabled, T. destruct (nth_error (thrs s) i) as [p|]; [|discriminate].
+  intros E. exists p. split; [reflexivity|]. destruct p; try reflexivity; discriminate.
+Qed.
+
+Lemma wexit_dec s w : T s w = Some WExit \/ T s w <> Some WExit.
+Proof. destruct (T s w) as [p|]; [destruct p|]; try (right; discriminate); left; reflexivity. Qed.
+
+Lemma next_client_dtor i r : stopper (next_client i r) = false /\ dtor_phase (next_client i r) = false /\
+  (dtor_pc (next_client i r) = true -> i = 0).
+Proof.
+  unfold next_client. destruct r; [destruct (Nat.eqb_spec i 0)|]; repeat split; try reflexivity; intros; try discriminate; auto.
+Qed.
+Lemma job_next_dtor r : stopper (job_next r) = false /\ dtor_pc (job_next r) = false.
+Proof. destruct r as [|[] r]; split; reflexivity. Qed.
+Lemma pc_after_dtor t a : stopper (pc_after t a) = false /\ dtor_phase (pc_after t a) = false /\
+  (dtor_pc (pc_after t a) = true -> t = 0).
+Proof.
+  destruct a as [r| |[|] r]; cbn [pc_after]; try (repeat split; try reflexivity; intros; discriminate).
+  - apply next_client_dtor.
+  - destruct (job_next_dtor r) as [X Y]. repeat split; auto.
+    + destruct r as [|[] r]; reflexivity.
+    + rewrite Y. discriminate.
+Qed.
+
+(* a thread moves between ordinary pcs; the pool's flags do not change *)
+Lemma invu_plain s s' i p old : InvU s -> T s i = Some old -> unfinished old = true ->
+  thrs s' = set_nth (thrs s) i p -> nclients s' = nclients s ->
+  exit_ s' = exit_ s -> threads s' = threads s -> stopped s' = stopped s -> destroyed s' = destroyed s -> uad s' = uad s ->
+  stopper p = false ->
+  (dtor_pc p = true -> dtor_pc old = true \/ i = 0) ->
+  (i = 0 -> dtor_phase p = true -> dtor_phase old = true \/ (forall j, 0 < j < nclients s -> T s j = Some CDone)) ->
+  InvU s'.
+Proof.
+  intros U H UF Et En Ee Eth Es Ed Eu SP D1 D2.
+  apply (invu_frame s s' i p old U H UF Et En); auto.
+  - rewrite Ee. auto.
+  - rewrite SP. discriminate.
+  - intros l q f a E. subst p. discriminate.
+  - intros a E. subst p. discriminate.
+  - rewrite SP. discriminate.
+  - rewrite Ed. auto.
+Qed.
+
+Lemma invu_move s i p old : InvU s -> T s i = Some old -> unfinished old = true ->
+  stopper p = false ->
+  (dtor_pc p = true -> dtor_pc old = true \/ i = 0) ->
+  (i = 0 -> dtor_phase p = true -> dtor_phase old = true \/ (forall j, 0 < j < nclients s -> T s j = Some CDone)) ->
+  InvU (with_thr s i p).
+Proof. intros U H UF P1 P2 P3. apply (invu_plain s _ i p old U H UF); auto. Qed.
+
+Lemma invu_wake s i : InvU s -> InvU (wake s i).
+Proof.
+  intros [U1 U2 U3 U4 U5 U6 U7 U8 U9 U10]. unfold wake. destruct (is_woken s i); constructor; auto.
+Qed.
+Lemma invu_ext s i r : InvU s -> InvU (with_ext s i r).
+Proof. intros [U1 U2 U3 U4 U5 U6 U7 U8 U9 U10]. constructor; auto. Qed.
+
+(* stop() returns in a state where the first stop has finished (or the caller is a pool thread) *)
+Lemma invu_returned s s0 t a old : InvB s -> InvU s -> T s t = Some old -> unfinished old = true ->
+  thrs s0 = thrs s -> nclients s0 = nclients s -> exit_ s0 = true -> destroyed s0 = destroyed s -> uad s0 = uad s ->
+  (stopped s0 = stopped s \/ (forall w, poolw s w -> w <> t -> T s w = Some WExit) /\ (nclients s <= t -> pc_after t a = WExit)) ->
+  (is_dtor a = true -> dtor_phase old = true /\
+       (forall w, poolw s w -> T s w = Some WExit)) ->
+  InvU (fst (returned s0 t a)).
+Proof.
+  intros B U H UF Et En EX Ed Eu ST DT.
+  destruct (returned_shell s0 t a _ eq_refl) as (E & K & Q & D & Th).
+  set (s' := fst (returned s0 t a)) in *.
+  destruct E as (e1 & e2 & e3 & e4 & e5 & e6 & e7 & e8 & e9).
+  destruct (pc_after_dtor t a) as (P1 & P2 & P3).
+  assert (Et' : thrs s' = set_nth (thrs s) t (pc_after t a)) by (rewrite Th, Et; reflexivity).
+  pose proof (TT_set s s' t _ old H Et') as TT.
+  apply (invu_frame s s' t (pc_after t a) old U H UF Et'); auto.
+  - congruence.
+  - rewrite e1, EX. discriminate.
+  - rewrite P1. discriminate.
+  - intros l q f a0 E0. rewrite E0 in P1. discriminate.
+  - intros a0 E0. rewrite E0 in P1. discriminate.
+  - rewrite P1. discriminate.
+  - rewrite e2. destruct ST as [ST|[ST1 ST2]]; [left; exact ST|right].
+    intros w Pw. rewrite TT. destruct (Nat.eqb_spec t w) as [E0|E0].
+    + subst w. f_equal. apply ST2. apply Pw.
+    + apply ST1; auto.
+  - intros _ X. rewrite X in P2. discriminate.
+  - rewrite D, Ed. destruct (is_dtor a) eqn:DA; [|auto]. intros _. right.
+    destruct (DT eq_refl) as [DP WX].
+    assert (T0 : t = 0) by (apply (u_zero s U t old H); destruct old; try discriminate; cbn in *; auto;
+                             unfold dtor_phase in DP; cbn in DP; exact DP).
+    subst t. destruct a; try discriminate. cbn [pc_after] in *.
+    intros j pj. rewrite TT. destruct (Nat.eqb_spec 0 j) as [E0|E0].
+    + intros Qj. inversion Qj. auto.
+    + intros Qj. destruct (Nat.ltb_spec j (nclients s)) as [L|L].
+      * rewrite (u_dtor s U old H DP j) in Qj by lia. inversion Qj. auto.
+      * assert (Pw : poolw s j) by (split; [exact L|eapply T_lt, Qj]). rewrite (WX j Pw) in Qj. inversion Qj. auto.
+  - congruence.
+Qed.
+
+Lemma dtor_phase_pc p : dtor_phase p = true -> dtor_pc p = true.
+Proof. unfold dtor_pc. destruct p; auto. Qed.
+
+Lemma invu_after_wait s s0 t l q first a old : InvB s -> InvU s -> T s t = Some old -> unfinished old = true ->
+  thrs s0 = thrs s -> nclients s0 = nclients s -> exit_ s0 = true -> destroyed s0 = destroyed s ->
+  stopped s0 = stopped s -> uad s0 = uad s ->
+  (first = true -> (stopper old = true \/ (forall j p', T s j = Some p' -> stopper p' = false)) /\
+                   (forall w, poolw s w -> w <> t -> T s w <> Some WExit -> In w l) /\
+                   (nclients s <= t -> det_after a = true)) ->
+  (first = false -> l = [] /\ (is_dtor a = true -> stopped s = true)) ->
+  (is_dtor a = true -> dtor_phase old = true) ->
+  InvU (fst (after_wait s0 t l q first a)).
+Proof.
+  intros B U H UF Et En EX Ed Es Eu HF HN HD.
+  unfold after_wait. destruct l as [|w0 l].
+  - (* the join loop is over *)
+    unfold stop_end.
+    destruct (drop_env t s0 q) as (E & K & Q & D & Th).
+    destruct (drop_all t s0 q) as [s1 e]. cbn [fst] in *.
+    destruct E as (e1 & e2 & e3 & e4 & e5 & e6 & e7 & e8 & e9).
+    destruct first.
+    + destruct (HF eq_refl) as (F1 & F2 & F3). cbn [fst].
+      apply (invu_frame s _ t (SFin a) old U H UF); unfold with_thr;
+        cbn [queue exit_ stopped threads tokens woken destroyed nclients thrs extw uad]; auto.
+      * rewrite Th, Et. reflexivity.
+      * congruence.
+      * rewrite e1, EX. discriminate.
+      * intros l0 q0 f0 a0 E0. discriminate.
+      * intros a0 E0 w Pw Nw. destruct (wexit_dec s w) as [X|X]; [exact X|]. destruct (F2 w Pw Nw X).
+      * left. congruence.
+      * unfold dtor_pc. cbn [dtor_phase after_of]. intros X. left. apply dtor_phase_pc, HD. destruct a; try discriminate; reflexivity.
+      * rewrite D, Ed. auto.
+      * congruence.
+    + destruct (HN eq_refl) as (_ & N2).
+      pose proof (invu_returned s s1 t a old B U H UF) as R.
+      destruct (returned s1 t a) as [s2 e2']. cbn [fst] in *. apply R; try congruence.
+      * left. congruence.
+      * intros DA. split; [apply HD, DA|]. apply (u_stopw s U (N2 DA)).
+  - destruct first; [|destruct (HN eq_refl) as (X & _); discriminate].
+    destruct (HF eq_refl) as (F1 & F2 & F3). cbn [fst].
+    apply (invu_frame s _ t (Join (w0 :: l) q true a) old U H UF); unfold with_thr;
+      cbn [queue exit_ stopped threads tokens woken destroyed nclients thrs extw uad]; auto.
+    + rewrite Et. reflexivity.
+    + rewrite EX. discriminate.
+    + intros l0 q0 f0 a0 E0. inversion E0; subst. exact F2.
+    + intros a0 E0. discriminate.
+    + unfold dtor_pc. cbn [dtor_phase after_of]. intros X. left. apply dtor_phase_pc, HD. destruct a; try discriminate; reflexivity.
+    + rewrite Ed. auto.
+Qed.
+
+Lemma in_filter_ne (t : nat) l w : In w l -> w <> t -> In w (filter (fun x => negb (Nat.eqb x t)) l).
+Proof. intros I N. apply filter_In. split; [exact I|]. apply Nat.eqb_neq in N. rewrite N. reflexivity. Qed.
+Lemma existsb_eqb_true t l : In t l -> existsb (Nat.eqb t) l = true.
+Proof. intros I. apply existsb_exists. exists t. split; [exact I|apply Nat.eqb_refl]. Qed.
+
+Lemma invu_stop_mark s t a old : InvB s -> InvU s -> T s t = Some old -> unfinished old = true ->
+  in_stop old = false ->
+  (nclients s <= t -> exists d r, a = AWorker d r) ->
+  (is_dtor a = true -> dtor_phase old = true) ->
+  InvU (fst (stop_mark s t a)).
+Proof.
+  intros B U H UF NS WA HD. unfold stop_mark.
+  set (s1 := marked s (sleeper_ids s)).
+  set (a' := match a with AWorker _ r => AWorker (existsb (Nat.eqb t) (threads s)) r | _ => a end).
+  set (l := filter (fun w => negb (Nat.eqb w t)) (threads s)).
+  assert (DT : is_dtor a' = is_dtor a) by (unfold a'; destruct a; reflexivity).
+  assert (NOST : exit_ s = false -> forall j p', T s j = Some p' -> stopper p' = false).
+  { intros X j p' Hj. destruct (stopper p') eqn:S; [|reflexivity].
+    assert (I : in_stop p' = true) by (destruct p'; try discriminate; reflexivity).
+    pose proof (b_join s B j p' Hj I). congruence. }
+  destruct (negb (negb (exit_ s)) && negb (is_cur a) && negb (stopped s)) eqn:COND.
+  - apply andb_prop in COND. destruct COND as [COND C3]. apply andb_prop in COND. destruct COND as [C1 C2].
+    assert (X : exit_ s = true) by (destruct (exit_ s); [reflexivity|discriminate]).
+    cbn [fst]. apply (invu_frame s _ t (SWait l (queue s) a') old U H UF); unfold with_thr, s1, marked;
+      cbn [queue exit_ stopped threads tokens woken destroyed nclients thrs extw uad]; auto; try discriminate.
+    + unfold dtor_pc. cbn [dtor_phase after_of]. intros Y. left. apply dtor_phase_pc, HD. rewrite <- DT. destruct a'; try discriminate; reflexivity.
+    + intros _ Y. left. apply HD. rewrite <- DT. cbn [dtor_phase after_of] in Y. destruct a'; try discriminate; reflexivity.
+  - apply (invu_after_wait s s1 t l (queue s) (negb (exit_ s)) a' old B U H UF); try reflexivity.
+    + intros F. assert (X : exit_ s = false) by (destruct (exit_ s); [discriminate|reflexivity]).
+      split; [right; apply NOST, X|]. split.
+      * intros w Pw Nw _. apply in_filter_ne; [apply (u_thrall s U X w Pw)|exact Nw].
+      * intros L. destruct (WA L) as (d & r & ->). unfold a'. cbn [det_after].
+        rewrite existsb_eqb_true; [reflexivity|]. apply (u_thrall s U X). split; [exact L|eapply T_lt, H].
+    + intros F. assert (X : exit_ s = true) by (destruct (exit_ s); [reflexivity|discriminate]).
+      destruct (b_exit s B X) as [_ Th]. split; [unfold l; rewrite Th; reflexivity|].
+      rewrite DT. intros DA. rewrite X in COND. cbn [negb andb] in COND.
+      destruct a; try discriminate. cbn [is_cur negb andb] in COND. destruct (stopped s); [reflexivity|discriminate].
+    + rewrite DT. exact HD.
+Qed.
+
+Lemma exit_pc_dtor s w : stopper (exit_pc s w) = false /\ dtor_phase (exit_pc s w) = false /\
+  (dtor_pc (exit_pc s w) = true -> w = 0).
+Proof.
+  unfold exit_pc. destruct (Nat.ltb w (nclients s)); [apply next_client_dtor|].
+  repeat split; try reflexivity. discriminate.
+Qed.
+
+Lemma invu_worker_cs s s0 w old : InvU s -> T s w = Some old -> unfinished old = true ->
+  thrs s0 = thrs s -> nclients s0 = nclients s -> exit_ s0 = exit_ s -> threads s0 = threads s ->
+  stopped s0 = stopped s -> destroyed s0 = destroyed s -> uad s0 = uad s ->
+  InvU (fst (worker_cs s0 w)).
+Proof.
+  intros U H UF Et En Ee Eth Es Ed Eu.
+  assert (GEN : forall p s2, thrs s2 = thrs s0 -> nclients s2 = nclients s0 -> exit_ s2 = exit_ s0 ->
+            threads s2 = threads s0 -> stopped s2 = stopped s0 -> destroyed s2 = destroyed s0 -> uad s2 = uad s0 ->
+            stopper p = false -> dtor_phase p = false -> (dtor_pc p = true -> w = 0) ->
+            InvU (with_thr s2 w p)).
+  { intros p s2 E1 E2 E3 E4 E5 E6 E7 P1 P2 P3.
+    apply (invu_plain s _ w p old U H UF); unfold with_thr;
+      cbn [queue exit_ stopped threads tokens woken destroyed nclients thrs extw uad]; try congruence; auto;
+      intros _ X; congruence. }
+  unfold worker_cs. destruct (exit_ s0) eqn:EX.
+  - cbn [fst]. destruct (exit_pc_dtor s0 w) as (X1 & X2 & X3). apply GEN; auto.
+  - destruct (queue s0) as [|c0 r].
+    + cbn [fst]. apply GEN; auto. discriminate.
+    + unfold run_job. destruct (nth_error (clos (with_queue s0 r)) c0) as [x|].
+      * cbn [fst]. destruct (job_next_dtor (cb x)) as (X1 & X2).
+        apply GEN; auto.
+        -- unfold dtor_pc in X2. destruct (job_next (cb x)); try discriminate; auto.
+        -- rewrite X2. discriminate.
+      * cbn [fst]. apply GEN; auto. discriminate.
+Qed.
+
+Lemma invu_enqueue s i l k b p old : InvU s -> T s i = Some old -> unfinished old = true ->
+  stopper p = false -> dtor_phase p = false -> (dtor_pc p = true -> i = 0) ->
+  InvU (with_thr (fst (enqueue s i l k b)) i p).
+Proof.
+  intros U H UF P1 P2 P3.
+  destruct (enqueue_shell s i l k b _ eq_refl) as (hq & he & hs & ht & hk & hw & hd & hn & hth & hc & hx & hu & _).
+  apply (invu_plain s _ i p old U H UF); unfold with_thr;
+    cbn [queue exit_ stopped threads tokens woken destroyed nclients thrs extw uad]; try congruence; auto;
+    intros _ X; congruence.
+Qed.
+
+Lemma in_firstn_nth {A} (l : list A) : forall n j x, nth_error l j = Some x -> j < n -> In x (firstn n l).
+Proof.
+  induction l as [|y l IH]; intros [|n] [|j] x H L; cbn in *; try discriminate; try lia.
+  - inversion H. left. reflexivity.
+  - right. apply (IH n j x H). lia.
+Qed.
+
+Lemma xwait_others s : InvB s -> InvU s -> xwait_ok s = true -> forall j, 0 < j < nclients s -> T s j = Some CDone.
+Proof.
+  intros B U X j Lj. unfold xwait_ok in X. rewrite forallb_forall in X.
+  pose proof (b_ncl s B) as N.
+  destruct (nth_error (thrs s) j) as [p|] eqn:E; [|apply nth_error_None in E; lia].
+  assert (I : In p (firstn (nclients s) (thrs s))).
+  { apply (in_firstn_nth _ _ j); [exact E|lia]. }
+  specialize (X p I). unfold T. rewrite E. destruct p; try discriminate; [|reflexivity].
+  exfalso. pose proof (u_zero s U j CXWait E eq_refl). lia.
+Qed.
+
+Theorem invu_core s i : InvB s -> InvU s -> enabled s i = true -> InvU (cstep s i).
+Proof.
+  intros B U EN. destruct (enabled_unfinished s i EN) as (p0 & H0 & UF).
+  unfold cstep, core. unfold enabled in EN. unfold T in H0. rewrite H0 in *.
+  assert (H : T s i = Some p0) by exact H0.
+  pose proof (b_class s B i p0 H) as [CL1 CL2].
+  destruct p0 as [prog| | | | | |l k r|l r|l r|r|q r| |l q f a|l q a|a].
+  - destruct prog as [|[l k b| |] r].
+    + cbn [fst]. destruct (next_client_dtor i []) as (X1 & X2 & X3).
+      apply (invu_move s i _ (CAt []) U H UF); auto. intros _ X. congruence.
+    + pose proof (invu_enqueue s i l k b (next_client i r) _ U H UF) as E.
+      destruct (enqueue s i l k b) as [s1 e]. cbn [fst] in *. destruct (next_client_dtor i r) as (X1 & X2 & X3). apply E; auto.
+    + pose proof (invu_stop_mark s i (AClient r) _ B U H UF) as E.
+      destruct (stop_mark s i (AClient r)) as [s1 e]. cbn [fst] in *. apply E; auto; try discriminate.
+      intros L. exfalso. specialize (CL1 L). discriminate.
+    + pose proof (invu_worker_cs s (with_ext s i r) i _ U H UF) as E.
+      destruct (worker_cs (with_ext s i r) i) as [s1 e]. cbn [fst] in *. apply E; reflexivity.
+  - cbn [fst]. apply (invu_move s i CDtor CXWait U H UF); auto.
+    intros _ _. right. apply (xwait_others s B U EN).
+  - pose proof (invu_stop_mark s i ADtor _ B U H UF) as E.
+    destruct (stop_mark s i ADtor) as [s1 e]. cbn [fst] in *. apply E; auto.
+    intros L. exfalso. specialize (CL1 L). discriminate.
+  - discriminate.
+  - pose proof (invu_worker_cs s s i _ U H UF) as E.
+    destruct (worker_cs s i) as [s1 e]. cbn [fst] in *. apply E; reflexivity.
+  - pose proof (invu_worker_cs s (wake s i) i _ U H UF) as E.
+    destruct (worker_cs (wake s i) i) as [s1 e]. cbn [fst] in *.
+    apply E; unfold wake; destruct (is_woken s i); reflexivity.
+  - pose proof (invu_enqueue s i l k [] (job_next r) _ U H UF) as E.
+    destruct (enqueue s i l k []) as [s1 e]. cbn [fst] in *. destruct (job_next_dtor r) as (X1 & X2).
+    apply E; auto; [unfold dtor_pc in X2; destruct (job_next r); try discriminate; auto|rewrite X2; discriminate].
+  - pose proof (invu_enqueue s i l KHop r WIdle _ U H UF) as E.
+    destruct (enqueue s i l KHop r) as [s1 e]. cbn [fst] in *. apply E; auto. discriminate.
+  - cbn [fst]. destruct (job_next_dtor r) as (X1 & X2).
+    assert (DP : dtor_phase (job_next r) = false) by (destruct r as [|[] r]; reflexivity).
+    apply (invu_move s i _ (WPeek l r) U H UF); destruct (exit_ s); auto; try discriminate;
+      try (rewrite X2; discriminate); intros _ X; congruence.
+  - pose proof (invu_stop_mark s i (AWorker false r) _ B U H UF) as E.
+    destruct (stop_mark s i (AWorker false r)) as [s1 e]. cbn [fst] in *. apply E; auto; try discriminate. eauto.
+  - cbn [fst]. destruct (job_next_dtor r) as (X1 & X2).
+    assert (DP : dtor_phase (job_next r) = false) by (destruct r as [|[] r]; reflexivity).
+    apply (invu_move s i _ (WQry q r) U H UF); auto; try (rewrite X2; discriminate).
+    intros _ X; congruence.
+  - discriminate.
+  - (* join loop *)
+    assert (F : f = true) by (eapply (b_first s B); exact H). subst f.
+    assert (EXT : exit_ s = true) by (apply (b_join s B i _ H); reflexivity).
+    assert (HD : is_dtor a = true -> dtor_phase (Join l q true a) = true).
+    { intros DA. unfold dtor_phase. cbn [after_of]. destruct a; try discriminate; reflexivity. }
+    assert (HN : true = false -> @nil nat = [] /\ (is_dtor a = true -> stopped s = true)) by (intros; discriminate).
+    assert (DET : nclients s <= i -> det_after a = true) by (intros L; apply (u_det s U i _ H L eq_refl)).
+    assert (W0 : forall w0 r0, l = w0 :: r0 -> T s w0 = Some WExit).
+    { intros w0 r0 ->. unfold is_wexit in EN. unfold T. destruct (nth_error (thrs s) w0) as [[]|]; try discriminate. reflexivity. }
+    destruct l as [|w0 [|w1 l]].
+    + assert (HF : true = true -> (stopper (Join [] q true a) = true \/ (forall j p', T s j = Some p' -> stopper p' = false)) /\
+                   (forall w, poolw s w -> w <> i -> T s w <> Some WExit -> In w []) /\ (nclients s <= i -> det_after a = true)).
+      { intros _. split; [left; reflexivity|]. split; [|exact DET]. intros w Pw Nw X. apply (u_jall s U i _ _ _ _ H w Pw Nw X). }
+      pose proof (invu_after_wait s s i [] q true a _ B U H UF) as E. unfold after_wait in E.
+      destruct (stop_end s i q true a) as [s1 e]. cbn [fst] in *. apply E; auto.
+    + assert (HF : true = true -> (stopper (Join [w0] q true a) = true \/ (forall j p', T s j = Some p' -> stopper p' = false)) /\
+                   (forall w, poolw s w -> w <> i -> T s w <> Some WExit -> In w []) /\ (nclients s <= i -> det_after a = true)).
+      { intros _. split; [left; reflexivity|]. split; [|exact DET]. intros w Pw Nw X.
+        pose proof (u_jall s U i _ _ _ _ H w Pw Nw X) as I. destruct I as [<-|[]]. exfalso. apply X. apply (W0 w0 []). reflexivity. }
+      pose proof (invu_after_wait s s i [] q true a _ B U H UF) as E. unfold after_wait in E.
+      destruct (stop_end s i q true a) as [s1 e]. cbn [fst] in *. apply E; auto.
+    + cbn [fst]. apply (invu_frame s _ i (Join (w1 :: l) q true a) _ U H UF); unfold with_thr;
+        cbn [queue exit_ stopped threads tokens woken destroyed nclients thrs extw uad]; auto.
+      * intros l0 q0 f0 a0 E0 w Pw Nw X. inversion E0; subst.
+        pose proof (u_jall s U i _ _ _ _ H w Pw Nw X) as I. destruct I as [<-|I]; [|exact I].
+        exfalso. apply X. eapply W0. reflexivity.
+      * intros a0 E0. discriminate.
+  - (* woken inside stop() *)
+    destruct (b_swait s B i l q a H) as (L0 & Q1 & CU). subst l q.
+    assert (EXT : exit_ s = true) by (apply (b_join s B i _ H); reflexivity).
+    destruct (stopped s) eqn:ST.
+    + assert (HD : is_dtor a = true -> dtor_phase (SWait [] [] a) = true).
+      { intros DA. unfold dtor_phase. cbn [after_of]. destruct a; try discriminate; reflexivity. }
+      assert (HN : false = false -> @nil nat = [] /\ (is_dtor a = true -> true = true)) by auto.
+      assert (HF : false = true -> (stopper (SWait [] [] a) = true \/ (forall j p', T s j = Some p' -> stopper p' = false)) /\
+                   (forall w, poolw s w -> w <> i -> T s w <> Some WExit -> In w []) /\ (nclients s <= i -> det_after a = true))
+        by (intros; discriminate).
+      assert (WK : forall A (f : st -> A), (forall x n, f (with_tokens x n) = f x) -> (forall x w, f (with_woken x w) = f x) -> f (wake s i) = f s).
+      { intros A f F1 F2. unfold wake. destruct (is_woken s i); auto. }
+      pose proof (invu_after_wait s (wake s i) i [] [] false a _ B U H UF) as E.
+      destruct (after_wait (wake s i) i [] [] false a) as [s1 e]. cbn [fst] in *.
+      apply E; auto; try (apply WK; reflexivity).
+      rewrite (WK _ exit_); auto.
+    + cbn [fst]. apply invu_wake, U.
+  - (* the first stop sets _stopped *)
+    assert (EXT : exit_ s = true) by (apply (b_join s B i _ H); reflexivity).
+    pose proof (invu_returned s (finished s (sleeper_ids s)) i a _ B U H UF) as E.
+    destruct (returned (finished s (sleeper_ids s)) i a) as [s1 e]. cbn [fst] in *.
+    assert (ALLW : forall w, poolw s w -> w <> i -> T s w = Some WExit) by (apply (u_sfin s U i a H)).
+    assert (SELF : nclients s <= i -> pc_after i a = WExit).
+    { intros L. pose proof (u_det s U i _ H L eq_refl) as D. cbn [det_of] in D. destruct a as [| |[|] r]; try discriminate. reflexivity. }
+    apply E; auto.
+    intros DA. split; [unfold dtor_phase; cbn [after_of]; destruct a; try discriminate; reflexivity|].
+    intros w Pw. apply ALLW; [exact Pw|]. intros ->. destruct Pw as [L _].
+    pose proof (u_zero s U i _ H) as Z. unfold dtor_pc, dtor_phase in Z. cbn [after_of] in Z. destruct a; try discriminate.
+    specialize (Z eq_refl). pose proof (b_ncl s B). lia.
+Qed.
+
+Lemma step_is_core s i : InvU s -> enabled s i = true -> step s i = cstep s i.
+Proof.
+  intros U EN. destruct (enabled_unfinished s i EN) as (p & H & UF).
+  unfold step, cstep, tstep. unfold T in H. rewrite H.
+  destruct (destroyed s) eqn:D.
+  - exfalso. destruct (u_dead s U D i p H) as [-> | ->]; discriminate.
+  - cbn [andb]. destruct (core s i) as [[s1 pt] e]. reflexivity.
+Qed.
+
+Theorem invu_step s i : InvB s -> InvU s -> enabled s i = true -> InvU (step s i).
+Proof. intros B U EN. rewrite (step_is_core s i U EN). apply invu_core; assumption. Qed.
+
+Lemma invu_init ops : InvU (init ops).
+Proof.
+  destruct (init_shape ops) as (m & cl & n & M & N & LC & NC & TH & THR & Q & EX & ST & DE & TK & WK & CLO & XW & UA & SH).
+  pose proof (init_cls ops) as CLS.
+  assert (PL : forall i p, T (init ops) i = Some p -> stopper p = false /\ dtor_phase p = false /\ (dtor_pc p = true -> i = 0)).
+  { intros i p H. destruct (CLS i p H) as [(L & r & ->)|(L & ->)]; [apply next_client_dtor|].
+    repeat split; try reflexivity. discriminate. }
+  constructor.
+  - intros _ w [P1 P2]. rewrite THR. apply in_seq. rewrite NC in P1. rewrite TH, app_length, repeat_length, LC in P2. lia.
+  - intros i j p p' H _ S. destruct (PL i p H) as (X & _). congruence.
+  - intros t l q f a H. destruct (PL t _ H) as (X & _). discriminate.
+  - intros t a H. destruct (PL t _ H) as (X & _). discriminate.
+  - intros t p H _ S. destruct (PL t p H) as (X & _). congruence.
+  - rewrite ST. discriminate.
+  - intros i p H. apply (PL i p H).
+  - intros p H D. destruct (PL 0 p H) as (_ & X & _). congruence.
+  - rewrite DE. discriminate.
+  - exact UA.
+Qed.
+
+Theorem invu_reachable ops s : reachable ops s -> InvU s.
+Proof.
+  induction 1; [apply invu_init|]. apply invu_step; auto. eapply invb_reachable; eassumption.
+Qed.
+
+(* ---------- the statements of C11 ---------- *)
+Definition terminal (s : st) : Prop := all_done s.
+
+Lemma terminal_quiet ops s : reachable ops s -> terminal s ->
+  destroyed s = true /\ queue s = [] /\ forall c, sumq c (thrs s) = 0.
+Proof.
+  intros R Tm. pose proof (invb_reachable ops s R) as B.
+  assert (D : destroyed s = true).
+  { apply (b_done0 s B). pose proof (b_ncl s B) as [N1 N2].
+    destruct (nth_error (thrs s) 0) as [p|] eqn:E; [|apply nth_error_None in E; lia].
+    destruct (Tm 0 p E) as [->| ->]; [exact E|].
+    exfalso. apply (proj2 (b_class s B 0 WExit E) N1). reflexivity. }
+  split; [exact D|]. split.
+  - apply (b_exit s B). apply (b_destr s B D).
+  - intros c. apply sumq_zero. intros p Hin. apply In_nth_error in Hin. destruct Hin as [i Hi].
+    destruct (Tm i p Hi) as [->| ->]; reflexivity.
+Qed.
+
+(* C11.1 every closure handed to the pool is in exactly one place: invoked once, destroyed un-run once,
+   waiting in the queue, or in the swapped-out list of one stop() in progress *)
+Theorem exactly_one_place ops s c x : reachable ops s -> nth_error (clos s) c = Some x ->
+  cran x + cdrop x + cnt c (queue s) + sumq c (thrs s) = 1.
+Proof.
+  intros R H. pose proof (a_tot s (inva_reachable ops s R) c) as E. unfold tot in E.
+  rewrite !(G_some _ _ _ _ _ H) in E.
+  assert (L : Nat.ltb c (length (clos s)) = true) by (apply Nat.ltb_lt, nth_error_Some; congruence).
+  rewrite L in E. exact E.
+Qed.
+
+Theorem at_most_one_outcome ops s c x : reachable ops s -> nth_error (clos s) c = Some x ->
+  cran x + cdrop x <= 1.
+Proof. intros R H. pose proof (exactly_one_place ops s c x R H). lia. Qed.
+
+Theorem exactly_one_outcome ops s c x : reachable ops s -> terminal s -> nth_error (clos s) c = Some x ->
+  cran x + cdrop x = 1.
+Proof.
+  intros R Tm H. pose proof (exactly_one_place ops s c x R H) as E.
+  destruct (terminal_quiet ops s R Tm) as (_ & Q & S0). rewrite Q, S0, cnt_nil in E. lia.
+Qed.
+
+(* C11.2 a closure is only ever invoked by a worker: a thread of the pool, or a client thread that has called worker() *)
+Theorem ran_on_worker ops s c x : reachable ops s -> nth_error (clos s) c = Some x -> 1 <= cran x ->
+  cran_on x < length (thrs s) /\ (nclients s <= cran_on x \/ In (cran_on x) (extw s)).
+Proof.
+  intros R H N. pose proof (invb_reachable ops s R) as B.
+  pose proof (b_ran s B c) as E. rewrite !(G_some _ _ _ _ _ H) in E. exact (E N).
+Qed.
+
+(* C11.3 destroying an un-run closure delivers exactly one cancellation to its waiter, for every kind *)
+Theorem cancel_observable ops s c x : reachable ops s -> nth_error (clos s) c = Some x -> ccanc x = cdrop x.
+Proof.
+  intros R H. pose proof (a_canc s (inva_reachable ops s R) c) as E.
+  rewrite !(G_some _ _ _ _ _ H) in E. exact E.
+Qed.
+
+(* C11.4 at the end nobody is left hanging: every waiter was completed by a run on a worker or by exactly one
+   cancellation, never both *)
+Theorem no_forgotten_waiter ops s c x : reachable ops s -> terminal s -> nth_error (clos s) c = Some x ->
+  cran x + ccanc x = 1.
+Proof.
+  intros R Tm H. pose proof (exactly_one_outcome ops s c x R Tm H).
+  pose proof (cancel_observable ops s c x R H). lia.
+Qed.
+
+(* C11.6 nothing uses the pool after its destructor has returned: at that moment every thread of the pool has
+   left worker() (or detached itself and finished), every client call has returned, nothing is queued *)
+Theorem no_use_after_destroy ops s : reachable ops s ->
+  uad s = false /\ (destroyed s = true -> terminal s /\ exit_ s = true /\ stopped s = true /\ queue s = [] /\ threads s = []).
+Proof.
+  intros R. pose proof (invb_reachable ops s R) as B. pose proof (invu_reachable ops s R) as U.
+  split; [apply (u_uad s U)|]. intros D. destruct (b_destr s B D) as [X S]. destruct (b_exit s B X) as [Q Th].
+  repeat split; auto. apply (u_dead s U D).
+Qed.
+
+Theorem terminal_all_joined ops s : reachable ops s -> terminal s ->
+  destroyed s = true /\ exit_ s = true /\ queue s = [] /\ threads s = [] /\
+  forall i p, T s i = Some p -> nclients s <= i -> p = WExit.
+Proof.
+  intros R Tm. pose proof (invb_reachable ops s R) as B.
+  destruct (terminal_quiet ops s R Tm) as (D & Q & _).
+  destruct (b_destr s B D) as [X _]. destruct (b_exit s B X) as [_ Th].
+  repeat split; auto. intros i p H L. destruct (Tm i p H) as [->| ->]; [|reflexivity].
+  pose proof (proj1 (b_class s B i CDone H) L). discriminate.
+Qed.
